@@ -41,34 +41,34 @@ type ParamDecl struct {
 }
 
 type Contract struct {
-	Key      string // canonical function key: pkgname.Func or pkgname.(*T).M or pkgname.T.M; closures: ...$1
-	PkgName  string
-	Header   string
-	Recv     *ParamDecl
-	Params   []ParamDecl
-	Results  []ParamDecl
-	Props    []string
-	Requires []*Clause
-	Ensures  []*Clause
-	Modifies []*Clause // each clause text is a comma-separated list of locations
-	HasMod   bool
-	Loops    map[int]*LoopSpec
-	Inline   bool
-	Trusted  bool   // contract is assumed, body not verified (listed in evidence)
-	TrustWhy string // reason
-	Lib      bool   // library contract (function outside the repo)
-	FuncSpec bool   // contract for function values
-	Calls    map[string]string // local variable / field name -> funcspec name for dynamic calls
-	Implements []string        // funcspecs this function must implement
-	NoOverflow bool            // treat integer arithmetic as mathematical in this function (listed)
-	Overflow   bool            // generate overflow obligations
-	Pure     bool              // modifies nothing, result is a function of args+heap (for lib)
-	Free     []ParamDecl       // closures: names/types for free variables (positional)
-	File     string
-	Line     int
-	Assumes  []*Clause // assumptions local to this function (listed in evidence)
-	Terminates bool
-	ReadsHeap  bool
+	Key         string // canonical function key: pkgname.Func or pkgname.(*T).M or pkgname.T.M; closures: ...$1
+	PkgName     string
+	Header      string
+	Recv        *ParamDecl
+	Params      []ParamDecl
+	Results     []ParamDecl
+	Props       []string
+	Requires    []*Clause
+	Ensures     []*Clause
+	Modifies    []*Clause // each clause text is a comma-separated list of locations
+	HasMod      bool
+	Loops       map[int]*LoopSpec
+	Inline      bool
+	Trusted     bool              // contract is assumed, body not verified (listed in evidence)
+	TrustWhy    string            // reason
+	Lib         bool              // library contract (function outside the repo)
+	FuncSpec    bool              // contract for function values
+	Calls       map[string]string // local variable / field name -> funcspec name for dynamic calls
+	Implements  []string          // funcspecs this function must implement
+	NoOverflow  bool              // treat integer arithmetic as mathematical in this function (listed)
+	Overflow    bool              // generate overflow obligations
+	Pure        bool              // modifies nothing, result is a function of args+heap (for lib)
+	Free        []ParamDecl       // closures: names/types for free variables (positional)
+	File        string
+	Line        int
+	Assumes     []*Clause // assumptions local to this function (listed in evidence)
+	Terminates  bool
+	ReadsHeap   bool
 	CallAssumes map[string][]*Clause // callee name -> assumptions instantiated just before that call (listed in evidence)
 }
 
@@ -101,11 +101,11 @@ type GhostField struct {
 
 type ContractSet struct {
 	GhostFields map[string]*GhostField // "pkg.Type.$name"
-	Funcs     map[string]*Contract // by key
-	FuncSpecs map[string]*Contract
-	Specs     map[string]*SpecFunc // by pkgname.Name and bare Name
-	Axioms    []*Axiom
-	Files     []string
+	Funcs       map[string]*Contract   // by key
+	FuncSpecs   map[string]*Contract
+	Specs       map[string]*SpecFunc // by pkgname.Name and bare Name
+	Axioms      []*Axiom
+	Files       []string
 }
 
 var clauseRe = regexp.MustCompile(`^(requires|ensures|invariant|decreases|modifies|canary|assume|exit)(\[[^\]]*\])?\s*(.*)$`)
